@@ -21,6 +21,15 @@ func simYieldUnlocked(l sync.Locker, point string) {
 	if h := VerifHook; h != nil {
 		l.Unlock()
 		h(point, "")
+		// take the lock back without ever blocking inside the mutex (which
+		// the simulator cannot see): if it is not free, park at a yield
+		// point and try again
+		if tl, ok := l.(interface{ TryLock() bool }); ok {
+			for !tl.TryLock() {
+				h("lock.spin", point)
+			}
+			return
+		}
 		l.Lock()
 	}
 }
